@@ -38,6 +38,7 @@ RELAXATIONS: List[Tuple[str, str, frozenset]] = [
     ("parenthesised-comparand", 'comparable =/ "(" S comparable S ")"\n', frozenset()),
     ("parenthesised-expression-as-comparand", 'comparable =/ "(" S logical-expr S ")"\n', frozenset()),
     ("negated-comparand", "comparable =/ logical-not-op S comparable\n", frozenset()),
+    ("negated-query-as-comparand", "comparable =/ logical-not-op S filter-query\n", frozenset()),
     ("chained-comparison", "comparison-expr =/ comparable 2*(S comparison-op S comparable)\n", frozenset()),
     ("leading-zero-or-minus-zero", 'int =/ "-0" 1*DIGIT\n', frozenset()),
     ("space-separated-slice", 'slice-selector =/ [start S] ":" S end 1*B step\n', frozenset()),
